@@ -11,7 +11,8 @@ import (
 )
 
 func (k msgServer) SubmitInvalidity(ctx context.Context, msg *types.MsgSubmitInvalidity) (*types.MsgSubmitInvalidityResponse, error) {
-	if _, err := k.addressCodec.StringToBytes(msg.Sender); err != nil {
+	senderBytes, err := k.addressCodec.StringToBytes(msg.Sender)
+	if err != nil {
 		return nil, errorsmod.Wrap(err, "invalid sender address")
 	}
 	// check number of indices
@@ -39,6 +40,15 @@ func (k msgServer) SubmitInvalidity(ctx context.Context, msg *types.MsgSubmitInv
 	}
 	if publishedData.Timestamp.Add(params.ChallengePeriod).Before(sdkCtx.BlockTime()) {
 		return nil, types.ErrChallengePeriodIsOver
+	}
+
+	// one invalidity (and one collateral) per sender and item
+	_, found, err = k.GetInvalidity(ctx, msg.MetadataUri, senderBytes)
+	if err != nil {
+		return nil, err
+	}
+	if found {
+		return nil, types.ErrInvalidityAlreadyExist
 	}
 
 	// Send collateral to module account
